@@ -60,7 +60,8 @@ def build_cond(t):
         return ns().c.NullCondition()
     if isinstance(t, Leaf):
         return build_leaf(t)
-    l, r = build_cond(t.l), build_cond(t.r)
+    l = build_cond(t.l)
+    r = l if getattr(t, "same", False) else build_cond(t.r)
     if t.op == "and":
         return l & r
     if t.op == "or":
